@@ -101,8 +101,13 @@ impl<T: Write + Seek> ShapeWriter<T> {
             (ShapeType::NullShape, t) => {
                 self.header.shape_type = t;
                 self.header.bbox = BBoxZ {
-                    max: PointZ::new(f64::MIN, f64::MIN, f64::MIN, f64::MIN),
-                    min: PointZ::new(f64::MAX, f64::MAX, f64::MAX, f64::MAX),
+                    max: PointZ::new(
+                        f64::NEG_INFINITY,
+                        f64::NEG_INFINITY,
+                        f64::NEG_INFINITY,
+                        f64::NEG_INFINITY,
+                    ),
+                    min: PointZ::new(f64::INFINITY, f64::INFINITY, f64::INFINITY, f64::INFINITY),
                 };
                 // An earlier `finalize` (with no shape written yet) may already have
                 // written a header: the reserved header always goes at the start.
@@ -199,12 +204,14 @@ impl<T: Write + Seek> ShapeWriter<T> {
         // The sentinels of untouched ranges are replaced in the header that is
         // written, not in the one that keeps growing with later writes.
         let mut final_header = self.header;
-        if final_header.bbox.max.m == f64::MIN && final_header.bbox.min.m == f64::MAX {
+        if final_header.bbox.max.m == f64::NEG_INFINITY && final_header.bbox.min.m == f64::INFINITY
+        {
             final_header.bbox.max.m = 0.0;
             final_header.bbox.min.m = 0.0;
         }
 
-        if final_header.bbox.max.z == f64::MIN && final_header.bbox.min.z == f64::MAX {
+        if final_header.bbox.max.z == f64::NEG_INFINITY && final_header.bbox.min.z == f64::INFINITY
+        {
             final_header.bbox.max.z = 0.0;
             final_header.bbox.min.z = 0.0;
         }
